@@ -234,7 +234,7 @@ PROPS = {
         title='The assembler is total',
         parts=[
             Part('asm', lambda h: True,
-                 lambda h, c, info=None: (in_file(c, 'src/assembler.rs') or in_file(c, 'result.rs') or in_file(c, 'option.rs')) and (kani.is_panic_check(c) or 'placeholder message' in desc(c) or c.get('category') == 'assertion' and 'ensures' not in desc(c)),
+                 lambda h, c, info=None: ('ensures' not in desc(c)) and (kani.is_panic_check(c) or 'placeholder message' in desc(c) or c.get('category') in ('assertion', 'bounds_check', 'pointer_dereference')),
                  'no panic in insn / operands_tuple / encode / assemble_internal for every Instruction value, nor in the closure bodies of integer() and register() whatever std\'s parsers answer (an unwrap on their Err is a failed obligation)'),
         ],
         level_text='Proof of the rbpf-authored code of the assembler (Kani); combine\'s grammar machinery and std\'s integer parsers are assumed total; termination ("bounded time") is not verified by Kani.',
@@ -271,6 +271,15 @@ PROPS = {
         level_text='Proof for gather_bytes (Kani, complete), memfrob / strcmp (Verus loop invariants over an abstract byte memory), the arithmetic of rand (Verus). sqrti and the return value of bpf_trace_printf are floating point and stay UNVERIFIED.',
         assumptions=['sqrti and bpf_trace_printf: f64 sqrt/log - outside both tools; reading of the code: bpf_trace_printf(_,_,u64::MAX,0,0) returns 48 for 47 printed bytes (f64 rounding of log16), noted, not decided by this check',
                      'bpf_time_getns is not part of the statement'],
+    ),
+    'C20': dict(
+        title='Behaviour is the same with and without the standard library',
+        parts=[
+            Part('cfgdiff', lambda h: True, lambda h, c, info=None: True,
+                 'both feature configurations are cfg-evaluated; every verified span that is byte-identical is covered by its one proof (C01..C19); the spans that differ (lib.rs VM methods) are proved again on the no_std tree against the same contracts; JitMemory::new (no_std) has its own contract; every cfg(std) site has a recorded story'),
+        ],
+        level_text='Both configurations refine the same specifications: identical text is proved once, differing text twice. The verdicts of C01..C19 are prerequisites (this check does not re-run them).',
+        assumptions=['C01..C19 hold (their checks are separate)'],
     ),
     'C18': dict(
         title='Atomic add (sequential contract + single atomic RMW)',
